@@ -12,7 +12,7 @@ ov = {**transforms.WHOLE_REPO, **transforms.EXTRA}[name]("/repo")
 bad = 0
 for pid in pids:
     mod = importlib.import_module(f"sa.rules.{pid.lower()}")
-    repo = Repo("/repo", overrides=ov)
+    repo = Repo("/repo", overrides=ov, use_reference=False)
     chk = Check(pid, repo)
     err = None
     try:
